@@ -132,6 +132,10 @@ class ParserModel(object):
         self.fn = fn
         calls = list(fn.calls('cfg_yylex'))
         if not calls:
+            # the token is fetched by a helper (which may also skip what the state machine never sees): its call sites
+            calls = [cl for cl in fn.calls() if cl.callee_name() in ctx.unknown_funcs and ctx.func(cl.callee_name()) is not None
+                     and any(True for _ in ctx.deep_calls(ctx.func(cl.callee_name()), 'cfg_yylex'))]
+        if not calls:
             raise Broken('cfg_parse_internal: no cfg_yylex() call site')
         self.lexcalls = calls
         self.lexcall = calls[0]
@@ -231,7 +235,7 @@ class ParserModel(object):
             fn.var_names[self.state_slot] = 'state'
         self.states = sorted(v for v, _ in self.state_switch.cases)
         self.mod_sets = ctx.mod_sets
-        self.ex = sym.Explorer(ctx.modules, inline=callback_wrappers(ctx), max_visits=2, max_paths=20000, mod_sets=self.mod_sets)
+        self.ex = sym.Explorer(ctx.modules, inline=callback_wrappers(ctx), max_visits=2, max_paths=20000, mod_sets=self.mod_sets, once=('cfg_yylex',))
         self._table = {}
 
     def _finish_loop(self, paths):
@@ -458,6 +462,13 @@ class ParserModel(object):
         for p in paths:
             if p.end == 'cut':
                 continue
+            if p.end == 'yield':
+                # the iteration went on to fetch another token without coming back to the loop head: the loop-carried
+                # variables are what they were when the iteration began
+                p.end = 'stop'
+                for nm, ph in self.phis.items():
+                    p.next.setdefault(nm, env[ph.res])
+                    p.next.setdefault(ph.res, env[ph.res])
             if p.end == 'stop':
                 for reg, nm in self.slot_vars.items():
                     if nm not in p.next:
